@@ -28,8 +28,17 @@ def main():
     if a.replay:
         from pyvc import replaycmd
         sys.exit(replaycmd.run(a.prop, a.replay))
-    mod = importlib.import_module("props." + a.prop)
-    sys.exit(mod.run(a.tier, seed, only=a.only))
+    try:
+        mod = importlib.import_module("props." + a.prop)
+        code = mod.run(a.tier, seed, only=a.only)
+    except SystemExit:
+        raise
+    except BaseException:       # an internal error is never a violation
+        import traceback
+        traceback.print_exc()
+        print("CHECKER-ERROR internal error in check.py (see traceback)")
+        sys.exit(3)
+    sys.exit(code)
 
 
 if __name__ == "__main__":
